@@ -22,6 +22,13 @@ The endpoint ops may end in `via=msg`: the harness then sends the message END TO
 the real message server on the stored state (same decision), and after an accepted message
 reads the stored entry back: the answer is `ok stored=<entry>`.  `mowners` always does: the
 message server computes the proposed owners from the stored scope.
+The message-server forms of `wscope` / `wsession` / `wrecord` may carry `ids=opt|mix|both`: the
+harness then names the entry (and its specification) through the message's OPTIONAL id fields
+(`scope_uuid`, `session_id_components` by scope uuid or scope address, `spec_uuid`,
+`contract_spec_uuid`) instead of / in addition to the ids inside the entry.  The request is the
+same one — the endpoints convert those fields before they look the stored entry up
+(`msg_server_converts_optional_ids_first`) — so the model does not read the key: existing
+versus new entry, required parties and the stored result are judged exactly as without it.
 `vo` = the stored scope's value owner (held in the bank module), `pvo` = the message's
 `value_owner_address`; with them the read-back is `<scope>@<value owner>`.
 `via=hist` (stream `signershist`): as `via=msg`, but the stored state the line describes was
